@@ -264,6 +264,9 @@ def judge(case, got, ans):
                           "(X|Y|Z:G:result) " + a[4:]))
         elif a.startswith("ok:"):
             info["nontrivial"] = int(a.split(":")[2]) > 0
+            n = case["g"]["n"]
+            if int(a.split(":")[1]) != 4 ** n - 2 * 3 ** n + 2 ** n:   # all (X,Y,Z), X,Y non-empty
+                probs.append(("corr", "driver", "c10sepall evaluated %s queries, expected %d" % (a.split(":")[1], 4 ** n - 2 * 3 ** n + 2 ** n)))
         else:
             probs.append(("corr", "driver", "unexpected answer " + a))
     for (X, Y, Z), (pr, pm) in zip(case.get("queries", []), got.get("py", [])):
@@ -380,8 +383,11 @@ def gen_cases(ctx):
             g = C.rand_dag_order_graph(rng, n, C.ADMG_STATES[1:], density=rng.choice((0.3, 0.5, 0.8)))
         elif kind < 0.8:
             g = C.rand_dag_order_graph(rng, n, [("B",), ("B",), ("D>",), ("D>", "B")], density=rng.choice((0.4, 0.7)))
-        else:   # few directed edges, chains of bidirected edges
+        elif kind < 0.95:   # few directed edges, chains of bidirected edges
             g = C.rand_dag_order_graph(rng, n, [("B",), ("B",), ("B",), ("D>",)], density=0.45)
+        else:   # (almost) complete bidirected graph: 10-21 generated names, two-digit indices
+            n = rng.choice((5, 6, 7))
+            g = C.rand_dag_order_graph(rng, n, [("B",), ("B",), ("D>", "B")], density=0.95)
         if i % 3 == 0:
             g = C.shuffled_graph(rng, g)
         fam = rng.choice(COLLIDING) if rng.random() < 0.6 else rng.choice(FAMILIES)
@@ -508,7 +514,7 @@ def run(ctx):
                 sample_every=4000)
         ev.count("src:" + case["src"])
         ev.count("fam:" + case.get("fam", "corpus"))
-        ev.count("bidirected-edges:%d" % min(nb, 6))
+        ev.count("bidirected-edges:%s" % (nb if nb < 6 else ("6-9" if nb < 10 else "10+")))
         if info["skipped"]:
             ev.count("generated-name-collides-with-user-label")
         if info["names_equal"] is not None:
